@@ -62,7 +62,7 @@ def query_all(sched, jobs, members, edges, forever, msgs, max_starts=None,
             seq.reach_down(starts, edges, mem))
 
 
-def one_dag(n, edges, pure, outsider, res):
+def _one_dag(n, edges, pure, outsider, res):
     rep = {'kind': 'dag', 'n': n, 'edges': [list(e) for e in edges],
            'pure': pure, 'outsider': outsider}
     msgs = []
@@ -112,8 +112,25 @@ def one_dag(n, edges, pure, outsider, res):
                           rep)
 
 
+def one_dag(n, edges, pure, outsider, res):
+    _, hang = seq.guarded(_one_dag, n, edges, pure, outsider, res)
+    if hang:
+        seq.add_violation(res, 'c17:hang', "%s | DAG on %d nodes, edges %s"
+                          % (hang, n, sorted(edges)),
+                          {'kind': 'dag', 'n': n,
+                           'edges': [list(e) for e in edges], 'pure': pure,
+                           'outsider': outsider})
+
+
 # ------------------------------------------------------------ edit histories
 def apply_history(n, hist, pure=False):
+    out, hang = seq.guarded(_apply_history, n, hist, pure)
+    if hang:
+        return None, None, set(), set(), ["after %s: %s" % (hist[-1:], hang)]
+    return out
+
+
+def _apply_history(n, hist, pure=False):
     pool = [SJob(NAMES[i], i) for i in range(n)]
     sched = (SPure if pure else SSched)('top', 0)
     members = set()
@@ -163,12 +180,17 @@ def edit_search(n, res, pure):
     seen = {canon(pool, members, edges)}
     frontier = collections.deque([[]])
     hist = []
-    while frontier:
+    while frontier and not res.get('abort'):
         hist = frontier.popleft()
         _, _, members, edges, _ = apply_history(n, hist, pure)
         for op in list(enabled(n, members, edges)):
             h2 = hist + [op]
             _, pool, m2, e2, msgs = apply_history(n, h2, pure)
+            if pool is None:
+                seq.add_violation(res, 'c17:edit:hang', msgs[0],
+                                  {'kind': 'edits', 'n': n, 'pure': pure,
+                                   'history': [list(o) for o in h2]})
+                continue
             res['trans'] += 1
             res['validated'] += 1
             res['execs'] += 1
@@ -244,6 +266,8 @@ def run_item(item):
         dags = gen.dags(item['n'])
         lo, hi = item['range']
         for edges in dags[lo:hi]:
+            if res.get('abort'):
+                break
             one_dag(item['n'], edges, item['pure'], None, res)
             if item['n'] <= 3:
                 for o in range(item['n']):
